@@ -463,6 +463,7 @@ def run(ctx: Ctx):
 from ..mutants import Mut  # noqa: E402
 
 MUTANTS = [
+    Mut("columns-depends-only-on-visible", "urwid/widget/columns.py", "Columns.render", "            canvas.set_depends([w for w, _ in self.contents])", "            canvas.set_depends([w for (w, _), width in zip(self.contents, widths) if width > 0])", "HIDDEN-DEP|widget.columns.Columns.render|set_depends leaves out members of contents"),
     Mut("cleanup-forgets-dependants", "urwid/canvas.py", "CanvasCache.cleanup", "            for dependant in cls._deps.pop(widget, []):\n                cls.invalidate(dependant)\n", "            cls._deps.pop(widget, None)\n", "PAIR|canvas.CanvasCache.cleanup|dependency edges dropped without invalidating the dependants"),
     Mut("edit-text-emits-before-invalidating", "urwid/widget/edit.py", "Edit.set_edit_text", "        self.edit_pos = min(self.edit_pos, len(text))\n", "        self._edit_pos = min(self._edit_pos, len(text))\n        self.pref_col_maxcol = None, None\n", "INV-EMIT|widget.edit.Edit.set_edit_text|emission before invalidation of"),
     Mut("columns-hidden-test-counts-widths", "urwid/widget/columns.py", "Columns.render", "        if len(data) < len(self.contents):", "        if len(data) < len(widths):", "HIDDEN-DEP|widget.columns.Columns.render|hidden-child test does not count contents"),
